@@ -1,6 +1,6 @@
 (* helpers evaluated by the generated C08 case files: literals, the comparison of M's document with the
-   implementation's (oracle 1).  The oracle-2 helpers (reference screen against the rendered document) live in
-   Spec/Cea608Screen.v and are re-exported through Proofs/C08/Cases.v. *)
+   implementation's (oracle 1), and the evaluation of the reference screen S (Spec/Cea608Screen.v) against the
+   implementation's document (oracle 2: strict oracle, the grid of weaker oracles, trigger flags). *)
 From Coq Require Import QArith String Ascii.
 From TT Require Import Base.Prelude Base.SccTypes Base.SccDoc Model.SccWord Model.TimeCode Model.SccReader.
 Open Scope Z_scope.
